@@ -52,3 +52,27 @@ def assume_distinct(ctx, xs):
     for a in range(len(xs)):
         for b in range(a + 1, len(xs)):
             ctx.assume(xs[a] != xs[b])
+
+
+PRECALLS = {
+    "temporal": lambda ta: ta.get_temporal_breakdown(visualize=False),
+    "kernels": lambda ta: ta.get_gpu_kernel_breakdown(visualize=False, num_kernels=2, include_memory_kernels=True),
+    "idle": lambda ta: ta.get_idle_time_breakdown(ranks=[0], visualize=False, consecutive_kernel_delay=5),
+    "overlap": lambda ta: ta.get_comm_comp_overlap(visualize=False),
+    "queue": lambda ta: ta.get_queue_length_time_series([0]),
+    "launch": lambda ta: ta.get_cuda_kernel_launch_stats([0], visualize=False),
+    "membw": lambda ta: ta.get_memory_bw_time_series([0]),
+}
+
+
+def precalls(ctx, ta):
+    """other analyses run on the same TraceAnalysis object before the call under test (skeleton parameter `pre`): the
+    obligations of the property are unchanged, so any state an analysis leaves behind in the shared frames that changes a
+    later answer is a violation.  An exception inside a pre-call (e.g. an analysis that needs a communication kernel) is
+    not this property's subject: it is swallowed; CrossHair-style steering exceptions are BaseException and pass."""
+    for name in ctx.params.get("pre") or []:
+        try:
+            PRECALLS[name](ta)
+        except Exception as ex:       # noqa: BLE001
+            if type(ex).__name__ in ("Unsupported", "HarnessError"):
+                raise
